@@ -30,19 +30,20 @@ type Event struct {
 }
 
 type Finding struct {
-	Harness   string   `json:"harness"`
-	Kind      string   `json:"kind"`
-	Label     string   `json:"label"`
-	Site      string   `json:"site"`     // innermost non-harness function
-	Pos       string   `json:"pos"`      // file:line
-	Stack     []string `json:"stack"`    // call stack (function names)
-	Vector    []uint64 `json:"vector"`   // model for the inputs
-	Tags      []string `json:"tags"`     // input tags (same order)
-	Decisions []int    `json:"decisions"`
-	Detail    string   `json:"detail,omitempty"`
-	Confirmed string   `json:"confirmed,omitempty"` // "", "yes", "no", "n/a"
-	NativeOut string   `json:"native_out,omitempty"`
-	StepNo    int      `json:"-"`
+	Harness    string   `json:"harness"`
+	Kind       string   `json:"kind"`
+	Label      string   `json:"label"`
+	Site       string   `json:"site"`   // innermost non-harness function
+	Pos        string   `json:"pos"`    // file:line
+	Stack      []string `json:"stack"`  // call stack (function names)
+	Vector     []uint64 `json:"vector"` // model for the inputs
+	Tags       []string `json:"tags"`   // input tags (same order)
+	Decisions  []int    `json:"decisions"`
+	Detail     string   `json:"detail,omitempty"`
+	Confirmed  string   `json:"confirmed,omitempty"`   // "", "yes", "no", "n/a"
+	EngineOnly bool     `json:"engine_only,omitempty"` // found in a harness that is not replayable natively (verifNoValidate)
+	NativeOut  string   `json:"native_out,omitempty"`
+	StepNo     int      `json:"-"`
 }
 
 type pathEnd struct{ reason string }
@@ -73,23 +74,25 @@ type Run struct {
 	pc      []*Term
 	pending []*Term // pc terms not yet sent to the solver
 
-	objs    int
-	globals map[*ssa.Global]*Object
-	rtypes  map[types.Type]*Object // via canonical type
-	strLits map[string]*Object
-	locks     map[lockKey]int
-	poolItems map[lockKey][]Value
-	dates     map[[2]int]*dateFields
-	utc       *Object
-	local     *Object
-	fnSeen    map[string]bool
-	fconv     map[[2]int]*Term
-	ufMemo    map[string]*Term
-	noValidate bool
-	symNodes   []*Object
-	formats    map[[2]int]Str
-	jsonMarks  map[byte]*Object
-	initOK     map[*ssa.Package]bool
+	objs         int
+	globals      map[*ssa.Global]*Object
+	rtypes       map[types.Type]*Object // via canonical type
+	strLits      map[string]*Object
+	locks        map[lockKey]int
+	atomicOp     bool             // inside an atomic store (exempt from the shared-write rule)
+	atomicLoaded map[lockKey]bool // shared pointer locations atomically loaded (non-nil) by this operation
+	poolItems    map[lockKey][]Value
+	dates        map[[2]int]*dateFields
+	utc          *Object
+	local        *Object
+	fnSeen       map[string]bool
+	fconv        map[[2]int]*Term
+	ufMemo       map[string]*Term
+	noValidate   bool
+	symNodes     []*Object
+	formats      map[[2]int]Str
+	jsonMarks    map[byte]*Object
+	initOK       map[*ssa.Package]bool
 
 	frame *Frame
 	depth int
@@ -384,6 +387,7 @@ func (r *Run) addFinding(kind, label, detail string, vec []uint64) {
 		Harness: r.hname, Kind: kind, Label: label, Site: site, Pos: pos,
 		Stack: r.stack(), Vector: vec, Tags: r.inputTags(),
 		Decisions: append([]int(nil), r.taken...), Detail: detail, StepNo: r.steps,
+		EngineOnly: r.noValidate,
 	}
 	r.findings = append(r.findings, f)
 }
